@@ -128,18 +128,19 @@ class C12(Prop):
             yield {"k": "op", "op": rng.choice(["add", "sub", "div", "lt", "eq", "le", "gt"]),
                    "a": amount_spelling(rng) + ua, "b": amount_spelling(rng) + ub}
         for _ in range(n):
-            u = rng.choice(UNITS)
+            u = rng.choice(UNITS) if rng.random() < 0.7 else "%"
             ctx = {}
             if rng.random() < 0.8:
                 ctx["ppi"] = rng.choice([72, 96, 1000, 90, 25.4])
-            if rng.random() < 0.7:
+            if rng.random() < (0.9 if u == "%" else 0.4):
                 r = rng.random()
                 if r < 0.5:
                     ctx["rel"] = ["num", rng.choice([100, 200, 0.5, 1e3, -40])]
                 else:
-                    ctx["rel"] = [rng.choice(["str", "obj"]), rng.choice(["2", "10", "0.5", "96"]), rng.choice(["in", "px", "pt", "cm", "", "mm"])]
+                    ctx["rel"] = [rng.choice(["str", "obj"]), rng.choice(["2", "10", "0.5", "96"]), rng.choice(["in", "px", "pt", "cm", "", "mm", "em", "ex", "vw", "vh", "vmin", "vmax", "pc"])]
             if rng.random() < 0.7:
                 ctx["fs"] = rng.choice([12, 16, 10.5])
+            if rng.random() < 0.7:
                 ctx["fh"] = rng.choice([6, 8.25])
             if rng.random() < 0.7:
                 ctx["vb"] = rng.choice([[50, 200], [500, 200], [30, 30], [1e-2, 3], [1e4, 20]])
@@ -298,6 +299,8 @@ class C12(Prop):
             u = case["u"]
             exp = css_value(case["s"], u, case["ctx"])
             if exp is None:
+                if u == "%" and float(case["s"]) == 0 and obs.get("num") == 0.0:
+                    return fs      # 0% of anything is 0: nothing is guessed
                 if "len" not in obs or obs["len"][1] != u or not approx(obs["len"][0], float(Fr(float(case["s"]))), 1e-12):
                     # percentage of a string/Length reference legitimately returns the reference's unit symbolically
                     if u == "%" and case["ctx"].get("rel") and case["ctx"]["rel"][0] != "num" and "len" in obs:
